@@ -414,19 +414,30 @@ fn substring(
     _: dom::XmlNode,
     _: &mut model::Context,
 ) -> error::Result<model::Value> {
+    // XPath 1.0 4.2: the characters whose position p (from 1) satisfies
+    // round(start) <= p < round(start) + round(length); NaN compares false, so nothing.
+    fn round(v: f64) -> f64 {
+        (v + 0.5).floor()
+    }
+
     let mut args = args.iter();
     let v = String::try_from(args.next().unwrap())?;
-    let s = f64::try_from(args.next().unwrap())?.round() as usize - 1;
-    let c = if let Some(v) = args.next() {
-        Some(f64::try_from(v)?.round() as usize)
+    let start = round(f64::try_from(args.next().unwrap())?);
+    let end = if let Some(v) = args.next() {
+        Some(start + round(f64::try_from(v)?))
     } else {
         None
     };
-    let (_, mut r) = v.split_at(s);
-    if let Some(c) = c {
-        (r, _) = r.split_at(c);
-    }
-    Ok(model::Value::Text(r.to_string()))
+    let r = v
+        .chars()
+        .enumerate()
+        .filter(|(i, _)| {
+            let p = (*i + 1) as f64;
+            p >= start && end.map(|e| p < e).unwrap_or(true)
+        })
+        .map(|(_, c)| c)
+        .collect::<String>();
+    Ok(model::Value::Text(r))
 }
 
 fn string_length(
